@@ -3,23 +3,36 @@ import math, os
 import numpy as np
 import common, extract, libgen, oracle_tree
 
-LEAN_MODULE = "ESRVerif.Props.C02"
+LEAN_MODULE = ["ESRVerif.Props.C02", "ESRVerif.Props.C02b"]
 LEVEL = "other"
-LEVEL_TEXT = ("Partial proof. Proved in Lean for trees of any depth: the string node_to_string emits, read by the Python expression grammar "
+LEVEL_TEXT = ("Partial proof. Proved in Lean for trees of any depth: (syntax, Props/C02) the string node_to_string emits, read by the Python expression grammar "
               "(the executable parser proved sound and complete in C12), is exactly the tree's own call/operator structure and has no other reading; "
-              "with C12's theorems (printer round trip, the two regenerated symbol tables) this covers every ESR-owned link of the chain "
+              "(semantics, Props/C02b) evaluating that structure under the symbol table regenerated from the source gives the value of the tree under ESR's operator "
+              "semantics evalTree (pow u v = |u|^v, sqrt_abs = sqrt|u|, log_abs = log|u|, log10_abs = log|u|/log 10, tenexp = 10^u, inv, square, cube, exp, sin, + - * /): "
+              "tree_string_same_value_gen / node_string_same_value_gen(_string) for every tree whose labels are in genVocab (unary inv square cube sqrt_abs log_abs log10_abs "
+              "tenexp exp sin Abs, binary + - * / pow, names not bound to a function by the table), at every valuation, over any structure with the RealLike laws and "
+              "specialised to the real numbers with no law hypothesis left (Mathlib's rpow/sqrt/log; total conventions x/0 = 0, log 0 = 0 on both sides, and a strict evaluator "
+              "that is undefined at zero denominators, log 0 and 0 to a negative power is shown to be extended by it); the same for the fitting table on its own vocabulary "
+              "(sqrt, log, pow, inv, square, cube, exp, sin, Abs) and stages_agree_on_tree for the renamed tree; gen_sqrt_label_must_be_excluded shows the vocabulary "
+              "restriction is needed. With C12's theorems (printer round trip, the two regenerated symbol tables) this covers every ESR-owned link of the chain "
               "tree -> string -> sympify -> printer -> file -> fitting parser. NOT proved (hypothesis hcanon): that sympy's automatic evaluation under "
               "x>0, a_i real preserves the value. That link and the line alignment of trees_<n>.txt with all_equations_<n>.txt are checked on every run: "
               "every line of the explored libraries is evaluated by an independent prefix-tree evaluator and by lambdify of the stored string parsed with "
-              "EACH of the two real symbol tables, at generic points, finite values only.")
-TECHNIQUE = "Lean 4 proof of the node_to_string/grammar round trip + per-line numeric conformance of tree vs string under both symbol tables"
+              "EACH of the two real symbol tables, at generic points, finite values only. The Lean evalTree of the theorems is itself run over Float on the same trees and "
+              "points and compared with that independent evaluator (1e-9 relative, same finite/non-finite class).")
+TECHNIQUE = ("Lean 4 proof of the node_to_string/grammar round trip and of tree value = value of the string under both regenerated symbol tables + per-line numeric "
+             "conformance of tree vs stored string under both real symbol tables + Float conformance of the Lean tree evaluator with the oracle")
 RULE = ("one case = one line of trees_<n>.txt / all_equations_<n>.txt evaluated at 6 generic points under the two symbol tables; non-trivial = the tree has an "
         "operator node and at least one point where tree and string are finite; distinct by (basis, complexity, line)")
 EXPLANATION = LEVEL_TEXT
 TRUSTED = ["harness/oracle_tree.py (independent evaluator of ESR's operator semantics: pow/sqrt/log on absolute values)",
-           "sympy.lambdify/numpy for evaluating the stored strings", "hand model ESRVerif/Model/NodeString.lean (tied by string-equality correspondence)"]
+           "sympy.lambdify/numpy for evaluating the stored strings", "hand model ESRVerif/Model/NodeString.lean: toks/toPy tied by string-equality correspondence with node_to_string, "
+           "opSem1/opSem2/evalTreeWith (the property's own definition of a tree's value) tied by Float conformance with harness/oracle_tree.py on every tree the check draws or reads",
+           "Lean's Float operations (libm pow/log/exp/sin/sqrt) in the conformance run of evalTree; the theorems themselves are over an abstract RealLike structure and over Mathlib's real numbers",
+           "C12's evalPy/applyFn as the model of how sympify applies a symbol-table entry (ESRVerif/Proofs/PrinterSem.lean, tied in C12)"]
 ASSUMPTIONS = ["hcanon: sympy's canonicalisation preserves the value at generic points (sampled on every line, not proved)",
-               "lines whose tree or string is finite at none of the sampled points are counted as never-finite and not compared"]
+               "lines whose tree or string is finite at none of the sampled points are counted as never-finite and not compared",
+               "C02b theorems use total real arithmetic on both sides (x/0 = 0, log 0 = 0, Real.rpow); where the oracle raises (singular operation) the Float conformance run does not compare values"]
 MODELLED = ["generator.py:node_to_string"]
 
 
@@ -31,9 +44,65 @@ def _arity_map(basis):
     return m
 
 
+def _oracle_val(labels, basis, p):
+    """value of the tree by the independent oracle; None where the oracle raises (a singular operation: the strict value
+    of the tree does not exist there).  Malformed propagates."""
+    try:
+        return oracle_tree.eval_labels(labels, basis, p)
+    except (ZeroDivisionError, OverflowError, ValueError):
+        return None
+
+
+def _tie_evaltree(ctx, items, where):
+    """Lean `evalTreeWith` (the evaluator of the C02b theorems, run over Float by the driver op `treeval`) against
+    oracle_tree on the same trees and points.  items: (labels, arities, env, oracle value | None if the oracle raised).
+    Where the oracle returns a value: same finite/non-finite class, finite values equal to 1e-9 relative.  Where the
+    oracle raises, IEEE arithmetic goes on with inf/nan (1/inf = 0 is finite again): counted, not compared."""
+    st = ctx.extra.setdefault("evalTree_tie", dict(evaluations=0, compared_finite=0, both_nonfinite=0, oracle_raised=0,
+                                                   oracle_raised_model_finite=0, mismatches=0, trees=0))
+    if not items:
+        return 0
+    ops = ["treeval %s %s %s" % (",".join(l), "".join(str(a) for a in ar),
+                                 ",".join("%s:%s" % (k, common.f2b(v)) for k, v in sorted(env.items())))
+           for l, ar, env, _ in items]
+    out = common.model(ops)
+    bad = 0
+    st["trees"] += len(set(tuple(i[0]) for i in items))
+    for (labels, ar, env, t), o, m in zip(items, ops, out):
+        st["evaluations"] += 1
+        if not m.isdigit():
+            bad += 1
+            if bad <= 3:
+                ctx.disagree("corr:evalTree", "%s: %s: model answers %r, oracle %r" % (where, o, m, t))
+            continue
+        v = common.b2f(m)
+        if t is None:
+            st["oracle_raised"] += 1
+            st["oracle_raised_model_finite"] += int(math.isfinite(v))
+            continue
+        t = float(t)
+        if math.isfinite(t) and math.isfinite(v):
+            ok = abs(v - t) <= 1e-9 * max(abs(v), abs(t)) + 1e-12
+            st["compared_finite"] += 1
+        else:
+            ok = (not math.isfinite(t)) and (not math.isfinite(v))
+            st["both_nonfinite"] += int(ok)
+        if not ok:
+            bad += 1
+            if bad <= 3:
+                ctx.disagree("corr:evalTree", "%s: tree %r at %s: Lean evalTree %r, oracle_tree %r" % (
+                    where, labels, {k: round(val, 6) for k, val in env.items()}, v, t))
+    st["mismatches"] += bad
+    return bad
+
+
+def _point(ctx, nparam):
+    return dict([("x", ctx.rng.uniform(0.3, 3.0))] + [("a%d" % k, ctx.rng.choice([-1, 1]) * ctx.rng.uniform(0.3, 3.0)) for k in range(nparam)])
+
+
 def _corr_node_to_string(ctx, bases, nmax, per_shape):
     from esr.generation import generator as g
-    ops, real = [], []
+    ops, real, tie = [], [], []
     for name, b in bases:
         am = _arity_map(b)
         for n in range(1, nmax + 1):
@@ -51,13 +120,17 @@ def _corr_node_to_string(ctx, bases, nmax, per_shape):
                     real.append(g.node_to_string(0, tree, labels))
                     ops.append("nodestr %s %s" % (",".join(labels), "".join(map(str, s))))
                     ctx.case(("n2s", tuple(labels)), nontrivial=n >= 2)
+                    for _ in range(2):
+                        p = _point(ctx, max(k, 1))
+                        tie.append((labels, s, p, _oracle_val(labels, b, p)))
+    tie_bad = _tie_evaltree(ctx, tie, "drawn trees")
     out = common.model(ops)
     bad = [(o, a, m) for o, a, m in zip(ops, real, out) if m != a + " 1"]
     for o, a, m in bad[:4]:
         ctx.disagree("corr:node_to_string", "%s: code=%s model=%s" % (o, a, m))
     if ops:
         ctx.sample(dict(op=ops[-1], code=real[-1], model=out[-1]))
-    return len(ops), len(bad)
+    return len(ops), len(bad), tie_bad
 
 
 def _tables(max_param):
@@ -104,16 +177,15 @@ def _check_library(ctx, runname, basis, libdir, n, max_lines):
     pts = [dict([("x", ctx.rng.uniform(0.3, 3.0))] + [("a%d" % k, ctx.rng.choice([-1, 1]) * ctx.rng.uniform(0.3, 3.0)) for k in range(4)]) for _ in range(6)]
     stats = dict(lines=len(idx), compared=0, never_finite=0, unparsable=0)
     cache = {}
+    tie = []
     with np.errstate(all="ignore"):
         for i in idx:
             labels, s = trees[i], funs[i]
             try:
-                tv = []
-                for p in pts:
-                    try:
-                        tv.append(oracle_tree.eval_labels(labels, basis, p))
-                    except (ZeroDivisionError, OverflowError, ValueError):
-                        tv.append(float("nan"))
+                raw = [_oracle_val(labels, basis, p) for p in pts]
+                tv = [float("nan") if t is None else t for t in raw]
+                ar = [oracle_tree.arity(l, basis) for l in labels]
+                tie += [(labels, ar, p, t) for p, t in list(zip(pts, raw))[:2]]
             except oracle_tree.Malformed as e:
                 ctx.fail("malformed-tree:%s:n=%d" % (runname, n), "line %d of trees_%d.txt (%s) is not a tree over the basis: %r (%s)" % (i, n, runname, labels, e), dict(rp, line=i))
                 continue
@@ -150,6 +222,7 @@ def _check_library(ctx, runname, basis, libdir, n, max_lines):
                 stats["compared"] += 1
             else:
                 stats["never_finite"] += 1
+    stats["evalTree_mismatches"] = _tie_evaltree(ctx, tie, "library %s n=%d" % (runname, n))
     ctx.extra.setdefault("libraries", []).append(dict(basis=runname, n=n, **stats))
 
 
@@ -163,6 +236,7 @@ def _sampled_trees(ctx, bases, count, nlo, nhi):
     x, syms, gen, fit = _tables(4)
     shapes = {n: [[int(v) for v in s] for s in g.get_allowed_shapes(n)] for n in range(nlo, nhi + 1)}
     done = 0
+    tie = []
     import io, contextlib
     with np.errstate(all="ignore"):
         while done < count:
@@ -194,6 +268,7 @@ def _sampled_trees(ctx, bases, count, nlo, nhi):
                     tv.append(oracle_tree.eval_labels(labels, b, p))
                 except Exception:
                     tv.append(float("nan"))
+            tie.append((labels, s, pts[0], _oracle_val(labels, b, pts[0])))
             ok = 0
             for tname, reader in (("generation", gen), ("fitting", fit)):
                 try:
@@ -215,20 +290,22 @@ def _sampled_trees(ctx, bases, count, nlo, nhi):
                         break
             ctx.case(("sampled", name, tuple(labels)), nontrivial=ok > 0)
     ctx.extra["sampled_trees"] = done
+    return _tie_evaltree(ctx, tie, "sampled trees n=%d..%d" % (nlo, nhi))
 
 
 def run(ctx):
     drift = extract.drifted(ctx.proof.get("extract", {}), MODELLED)
-    deep = (not ctx.quick) or bool(drift)
+    deep = not ctx.quick                 # thorough tier: largest libraries and sample counts
+    mid = bool(drift) and not deep       # modelled source drifted: wider failing-input search, still minutes not hours
     ctx.extra["source_drift"] = drift
     from extractors import shape as shx
     shipped = [(n, b) for n, b, _ in shx.bases(ctx.stage)]
     user = [("user", [["x", "a"], ["cube", "sin", "inv", "sqrt_abs"], ["+", "*", "-", "/", "pow", "pow_abs"]])]
-    n, b = _corr_node_to_string(ctx, shipped + user, 6 if deep else 5, 6 if deep else 3)
-    ctx.extra["corr_obligations"] = 1
-    ctx.extra["corr_discharged"] = int(b == 0)
+    n, b, tb = _corr_node_to_string(ctx, shipped + user, 6 if (deep or mid) else 5, 6 if (deep or mid) else 3)
+    ctx.extra["corr_obligations"] = 2
     ctx.extra["correspondence"] = dict(node_to_string_ops=n, mismatches=b)
-    plan = [("core_maths", 5), ("keep_duplicates", 4), ("base10_maths", 4)] if not deep else \
+    plan = [("core_maths", 5), ("keep_duplicates", 4), ("base10_maths", 4)] if not (deep or mid) else \
+           [("core_maths", 5), ("ext_maths", 4), ("keep_duplicates", 4), ("osc_maths", 4), ("base10_maths", 4), ("base_e_maths", 4)] if mid else \
            [("core_maths", 6), ("ext_maths", 5), ("keep_duplicates", 5), ("osc_maths", 5), ("base10_maths", 5), ("base_e_maths", 5)]
     bmap = dict(shipped)
     for rn, nmax in plan:
@@ -237,8 +314,11 @@ def run(ctx):
             ctx.fail("generation-incomplete:%s" % rn, "generation of %s n<=%d did not complete: %s" % (rn, nmax, r["res"]["error"]), dict(kind="library", runname=rn, n=nmax))
             continue
         for k in range(1, nmax + 1):
-            _check_library(ctx, rn, bmap[rn], r["dir"], k, 1500 if not deep else 12000)
-    _sampled_trees(ctx, shipped, 1200 if not deep else 12000, 6, 8 if not deep else 9)
+            _check_library(ctx, rn, bmap[rn], r["dir"], k, 12000 if deep else 3000 if mid else 1500)
+    _sampled_trees(ctx, shipped, 6000 if deep else 3000 if mid else 1200, 6, 9 if deep else 8)
+    tie = ctx.extra.get("evalTree_tie", {})
+    ctx.extra["corr_discharged"] = int(b == 0) + int(tie.get("mismatches", 1) == 0 and tie.get("compared_finite", 0) > 0)
+    ctx.sample(dict(evalTree_tie=tie))
     ctx.sample(ctx.extra.get("libraries", [])[-3:])
 
 
